@@ -9,6 +9,7 @@ from ..classflow import EXEMPT_ROOTS, Closure, callable_names
 from ..loader import AnalysisError, BuiltinClass, ClassInfo, FuncInfo, dotted, norm
 from ..report import Ctx
 from . import _c16_helpers as H
+from ._c08_helpers import combined_read_through_rule
 from ._shared import headerset_insertion_rule, headerset_order_rule, headerset_roles
 
 LEVEL_TEXT = (
@@ -26,11 +27,20 @@ LEVEL_TEXT = (
     "MultiDict are objects created on the spot except the documented pass-through methods; (R8.5) the environ-backed "
     "view keeps no state of its own, its methods read the environ, and no inherited reader touches the unused private "
     "list; (R8.6) hash material of immutable multi dicts is no finer than their equality and is a hashed frozenset of "
-    "the hash items (also when memoised). It decides these clauses on all paths, not conformance of every read with "
-    "the abstract model after every history; generator bodies of callees and implicit exceptions are not followed."
+    "the hash items (also when memoised); (R8.7) read-through of the combined multi dict: every method of the model's read "
+    "interface (item get, get, getlist, keys, items, values, lists, listvalues, to_dict, in, len, iteration), resolved in "
+    "the combined class's MRO, reads the list of wrapped dicts the constructor stored; every explicit loop over that "
+    "list iterates the whole list in order; and no path leaves such a loop inside an iteration (break / return / raise "
+    "in the body, helpers inlined) with an outcome the method also produces after a complete scan - the default, the "
+    "KeyError, False, the accumulated result are given only when every wrapped dict has been consulted, an early exit "
+    "carries a value found in the current dict. It decides these clauses on all paths, not conformance of every read "
+    "with the abstract model after every history; generator bodies of callees and implicit exceptions are not "
+    "followed; for R8.7 a scan spelled as a comprehension / generator expression / next() / any() is complete by "
+    "construction and what is then done with its result (e.g. consulting only the first dict that has the key) is not "
+    "decided, nor is which value of a wrapped dict is read or whether the reads of one wrapped dict are complete."
 )
 TRUSTED = ["CPython ast", "typeshed method tables of list/dict/MutableSet/MutableMapping/MutableSequence (bundled with the repo's mypy, read as text)", "Python MRO (C3) and super() semantics", "builtin container semantics: dict.pop / set.discard / remove change the container iff the key is present, setdefault iff it is absent"]
-ASSUMPTIONS = ["private helpers (single underscore) are reachable only through public methods of the same class", "constructors and the pickle/copy protocol are exempt from R8.1 (they initialise a new object)"]
+ASSUMPTIONS = ["private helpers (single underscore) are reachable only through public methods of the same class", "constructors and the pickle/copy protocol are exempt from R8.1 (they initialise a new object)", "R8.7: the list of wrapped dicts holds mapping objects (never None) and a private sentinel object of the package (_missing) is never a value stored in a wrapped dict"]
 
 CI_CLASSES = ["datastructures.headers.Headers", "datastructures.structures.HeaderSet"]
 LOWERED_SETS = {"_set"}  # HeaderSet._set holds lower-cased members (established by R8.3's pairing + __init__)
@@ -53,6 +63,7 @@ def run(ctx: Ctx) -> None:
     ctx.rule("R8.4", "per-key lists stored, copied or returned by MultiDict / CombinedMultiDict are fresh (slice, list(), literal, comprehension)")
     ctx.rule("R8.5", "EnvironHeaders assigns self.environ only in __init__, assigns nothing else, and its read methods read self.environ")
     ctx.rule("R8.6", "hash material of an immutable multi dict whose equality is order-insensitive does not include positions")
+    ctx.rule("R8.7", "every read method of CombinedMultiDict reads the wrapped dicts, scans the whole list in order, and abandons a scan only with a value found in the current dict (the not-found / accumulated outcome needs a complete scan)")
 
     # ---------------- R8.1 -------------------------------------------
     classes = _immutable_classes(ctx)
@@ -241,6 +252,11 @@ def run(ctx: Ctx) -> None:
             ctx.ob("R8.6", f"{c.name}.__hash__ hashes the frozenset of its hash items", uses, f"__hash__ from {ho.name} returns {vals}", hh, hh.node, f"{c.name} hash shape")
     ctx.floor("R8.6", "classes with hash items", n86, 5)
 
+    # ---------------- R8.7 -------------------------------------------
+    nread, nloops = combined_read_through_rule(ctx, "R8.7")
+    ctx.floor("R8.7", "read methods of the combined view", nread, 12)
+    ctx.floor("R8.7", "explicit scans of the wrapped dicts", nloops, 1)
+
 
 # ---------------------------------------------------------------------
 
@@ -365,6 +381,38 @@ def _fresh(term: str | None) -> bool:
     return False
 
 
+def _widened_fresh(fi: FuncInfo, term: str | None) -> bool:
+    """a local the executor widened (its term kept growing around a loop: ``rv += more`` / ``rv = rv + more``) still
+    denotes a list created here when every binding of the name in the function is a fresh list or such a growth step."""
+    m = H.re.fullmatch(r"__wide_(\w+)__", term or "")
+    if not m:
+        return False
+    name = m.group(1)
+    is_name = lambda x: isinstance(x, ast.Name) and x.id == name  # noqa: E731
+    bound = 0
+    for x in ast.walk(fi.node):
+        if isinstance(x, (ast.Assign, ast.AnnAssign)):
+            tgs = x.targets if isinstance(x, ast.Assign) else [x.target]
+            if any(is_name(t_) for t_ in tgs):
+                v = x.value
+                if v is None:
+                    continue
+                grows = isinstance(v, ast.BinOp) and isinstance(v.op, ast.Add) and is_name(v.left)
+                if not (grows or _fresh(H.text(v))):
+                    return False
+                bound += 1
+            elif any(is_name(y) for t_ in tgs for y in ast.walk(t_)):
+                return False
+        elif isinstance(x, ast.AugAssign) and is_name(x.target):
+            if not isinstance(x.op, ast.Add):
+                return False
+        elif isinstance(x, ast.Name) and x.id == name and isinstance(x.ctx, (ast.Store, ast.Del)) and not isinstance(getattr(x, "_parent", None), (ast.Assign, ast.AnnAssign, ast.AugAssign)):
+            return False  # bound by a loop target / with / walrus / tuple unpacking
+        elif isinstance(x, ast.arg) and x.arg == name:
+            return False
+    return bound > 0
+
+
 def _events(repo, cls: ClassInfo, fi: FuncInfo, kinds: tuple[str, ...]) -> tuple[list[tuple], list]:
     seen: list[tuple] = []
     ids: set[tuple] = set()
@@ -425,7 +473,7 @@ def _freshness(ctx: Ctx) -> None:
             if e[-1] is not fi:
                 continue
             n += 1
-            ctx.ob("R8.4", f"{cls.name}.getlist returns a fresh list", _fresh(e[1]), f"{norm(e[-2])}: returns `{e[1]}`", fi, e[-2], norm(e[-2]))
+            ctx.ob("R8.4", f"{cls.name}.getlist returns a fresh list", _fresh(e[1]) or _widened_fresh(fi, e[1]), f"{norm(e[-2])}: returns `{e[1]}`", fi, e[-2], norm(e[-2]))
     # (4) lists yields
     fi = md.methods["lists"]
     evs, _ = _events(repo, md, fi, ("yield",))
